@@ -80,9 +80,11 @@ Definition status_rejected : Z := Rules.status_rejected.
 (* big.Int.SetString(s, 10) as used for bidAmt (error ignored: nil on failure) *)
 Definition parse_bigint (s : bytes) : option Z :=
   match s with
-  | 43 :: r => match parse_dec r with Some n => Some (Z.of_N n) | None => None end
-  | 45 :: r => match parse_dec r with Some n => Some (- Z.of_N n)%Z | None => None end
-  | _ => match parse_dec s with Some n => Some (Z.of_N n) | None => None end
+  | c :: r =>
+      if c =? 43 then match parse_dec r with Some n => Some (Z.of_N n) | None => None end
+      else if c =? 45 then match parse_dec r with Some n => Some (- Z.of_N n)%Z | None => None end
+      else match parse_dec s with Some n => Some (Z.of_N n) | None => None end
+  | [] => None
   end.
 
 Definition two64z : Z := 18446744073709551616%Z.
